@@ -144,10 +144,8 @@ class FrameCollector:
         _self = f_locals.get('self', None)
         class_name = None
         if _self is not None:
-            try:
-                class_name = _self.__class__.__name__
-            except BaseException:
-                class_name = type(_self).__name__
+            # (the type itself: asking the object for its __class__ runs the application's code - a lazy proxy)
+            class_name = type(_self).__name__
 
         var_ids = []
         # only process vars if we are under the time limit
